@@ -31,6 +31,7 @@ type kvPair struct {
 	V  string `json:"v"`
 	Pt int    `json:"pt"` // provenance of the value: data type and session it was written under
 	Ps string `json:"ps"`
+	Pk bool   `json:"pk"` // provenance known (values are unique per write, except the empty value)
 }
 
 type kvEvent struct {
@@ -148,8 +149,8 @@ func runKvSequence(ops []kvOp, seq int, backends []string, out *ndw, kinds map[s
 							if k == nil {
 								break
 							}
-							p := provs[string(v)]
-							ev.List = append(ev.List, kvPair{enc(string(k)), enc(string(v)), p.t, enc(p.s)})
+							p, known := provs[string(v)]
+							ev.List = append(ev.List, kvPair{enc(string(k)), enc(string(v)), p.t, enc(p.s), known})
 							if len(ev.List) > 200 {
 								break
 							}
